@@ -22,6 +22,9 @@ LEVEL = "other"
 def run(chk):
     cfgs = ["base", "z"]
     chk.configs = cfgs
+    chk.rule("T.nearest-crossing", "GetIntersection reports the side the segment meets first (the crossing closest to p) for p in every side region - above / level / "
+             "below resp. left / level / right - and every possible (entry, exit) pair of sides; false and loc unchanged when nothing is crossed (76 cells)")
+    chk.rule("T.next-location", "GetNextLocation (shared by both clippers): from each side region the next vertex is classified on every ordering against the rectangle")
     chk.rule("T.touching", "GetSegmentIntersection with an end point W on the line of the other segment (a, b): true exactly when W lies strictly between a "
              "and b - all orderings, W = p1..p4, horizontal and vertical other segment in both directions (48 cells)")
     chk.rule("POLY.intersect", "GetSegmentIntersection: an end point stored as the intersection under `cross == 0` lies on both lines (identically, or by the "
@@ -42,8 +45,10 @@ def run(chk):
         e3.location_table(db, chk, cfg)
         e3.bounds_update_table(db, chk, cfg)
         from ..engines import e14_poly as e14
+        e3.next_location_table(db, chk, cfg)
         e14.rule_segment_cases(db, chk, cfg)
         e3.touching_between_table(db, chk, cfg)
+        e3.nearest_crossing_table(db, chk, cfg)
         e14.rule_intersect(db, chk, cfg)
         e3.rect_shortcuts(db, chk, cfg)
         e3.lines_shortcuts(db, chk, cfg)
